@@ -71,7 +71,7 @@ ASSUMPTIONS = [
     'PAM arm: tolerance is a synthesis budget, not exactness',
 ]
 SHARDS = {'quick': 16, 'thorough': 16}
-BUDGET_S = {'quick': 170, 'thorough': 2400}
+BUDGET_S = {'quick': 200, 'thorough': 2400}
 
 TOL = 1e-7            # SABRE: exact up to rounding
 PAM_EPS = 1e-8        # LEAP success threshold (HS cost) per block
@@ -1116,9 +1116,9 @@ def pam_cases(draw):
 def run_shard(ctx: core.Ctx) -> core.ShardResult:
     global _COMPILER
     res = core.ShardResult()
-    core.run_hypothesis(ctx, res, sabre_cases(), check, ctx.n(200, 4000), sub=0)
+    core.run_hypothesis(ctx, res, sabre_cases(), check, ctx.n(500, 4000), sub=0)
     core.run_hypothesis(
-        ctx, res, sabre_cases(big=True), check, ctx.n(30, 1000), sub=1,
+        ctx, res, sabre_cases(big=True), check, ctx.n(70, 1000), sub=1,
     )
     if ctx.tier == 'thorough':
         # PAM needs synthesis and therefore the real runtime: one private
